@@ -5,18 +5,21 @@ import NimaVerif.Gen.Paths
 
 Property theorems only (helper lemmas: `Lemmas/Paths.lean`; model: `Model/Paths.lean`).
 
-* `implLookup fs cwd entry k ks` is the model of `parse_file(entry)[k][k1][k2]…` run with working
-  directory `cwd`: it carries what the code carries — the path `parse_file` was called with *as
-  spelled* (possibly relative, possibly with `..`), captured in every path literal at parse time —
-  and hands uncollapsed pure paths to the OS view (`FS.locate`: a physical walk from `cwd`).
+* `implLookup fs home cwd entry k ks` is the model of `parse_file(entry)[k][k1][k2]…` run with
+  working directory `cwd` and home path `home` (`Path.home()`): it carries what the code carries —
+  the path `parse_file` was called with *as spelled* (possibly relative, possibly with `..`),
+  captured in every path literal at parse time — and hands uncollapsed pure paths to the OS view
+  (`FS.locate`: a physical walk from `cwd`).
 * `specFrom fs home cwd entry k ks` is the SPEC: files are identified by their canonical location;
   a literal in the file at `file` is resolved from the directory `file.dropLast`, an absolute
-  literal from the root, `<…>` is a `ValueError`, and `~/x` is Nix's home-relative path when
-  `home = some h` (with `home = none` it is read like `./~/x`, which is what the code does).
+  literal from the root, `<…>` is a `ValueError`, and `~/x` is Nix's home-relative path `$HOME/x`
+  whatever file it is written in (for a canonical home directory `h`: `x` resolved from `h`,
+  `home_literal_in_home_directory`).
 
 All statements quantify over every filesystem (any number of files and directories, any depth),
-every working directory, every spelling of the entry path and every key list (unbounded).
-`FS` has no symlink constructor: "no symlinks" is built into the type (assumption `NoSymlinks`).
+every working directory, every home path, every spelling of the entry path and every key list
+(unbounded). `FS` has no symlink constructor: "no symlinks" is built into the type (assumption
+`NoSymlinks`).
 -/
 namespace Nima.C17
 
@@ -27,8 +30,8 @@ theorem tie_plumbing : Gen.plumbing = some plumbingModel := by decide
 
 /-- The hand-written `resolvedPath` is the interpreter of `recipeModel` (so the tie above is about
     the function the theorems speak of). -/
-theorem recipe_sound (t : Text) (src : Option PPath) (cwd : PPath) :
-    recipeModel.eval t src cwd = resolvedPath t src := by
+theorem recipe_sound (t : Text) (src : Option PPath) (home cwd : PPath) :
+    recipeModel.eval t src home cwd = resolvedPath t src home := by
   have hpre : (['<'] : Text).isPrefixOf t = (t.head? == some '<') := by
     cases t with
     | nil => rfl
@@ -38,22 +41,53 @@ theorem recipe_sound (t : Text) (src : Option PPath) (cwd : PPath) :
     cases t.reverse with
     | nil => rfl
     | cons c cs => simp [List.isPrefixOf, Bool.beq_comm]
-  unfold resolvedPath isAngle
-  simp only [Recipe.eval, recipeModel, Recipe.runGuards, PCond.eval, PExpr.eval, hpre, hsuf]
+  unfold resolvedPath isAngle isHome
+  simp only [Recipe.eval, recipeModel, Recipe.runGuards, Recipe.runEarly, PCond.eval, PExpr.eval,
+    hpre, hsuf]
   cases h1 : (t.head? == some '<') <;> cases h2 : (t.getLast? == some '>') <;>
-    cases src <;> cases h3 : (parsePath t).abs <;> simp
+    cases h4 : (['~', '/'] : Text).isPrefixOf t <;>
+    cases src <;> cases h3 : (parsePath t).abs <;> simp <;>
+    cases (parsePath t).expanduser home <;> rfl
 
-/-! ## 1. The refinement: what the code computes is resolution relative to the importing file. -/
+/-! ## 1. The refinement: what the code computes is resolution relative to the importing file
+(and, for `~/x`, to the home directory). -/
 
 /-- Invariant of an import chain: the `source_path` the code carries (as spelled) is located by the
     OS, from the working directory, at the canonical file the spec has reached. Under it every
-    further lookup agrees, for any number of further hops. -/
-theorem implGet_refines (fs : FS) (cwd : List Comp) (ks : List Text) :
+    further lookup agrees, for any number of further hops — a hop through a `~/` literal included:
+    the path `parse_file` is then called with is `$HOME/x`, located at the spec's file. -/
+theorem implGet_refines (fs : FS) (home : PPath) (cwd : List Comp) (ks : List Text) :
     ∀ (src : PPath) (file : List Comp) (v : Val), fs.locate cwd src = .ok file →
-      implGet fs cwd (some src) v ks = specGet fs none file v ks := by
+      implGet fs home cwd (some src) v ks = specGet fs home cwd file v ks := by
   induction ks with
   | nil => intro src file v _; cases v <;> simp [implGet, specGet]
   | cons k ks ih =>
+    -- one hop: the code enters the file at `r`, the spec the file `r` is located at
+    have hop : ∀ (r : PPath) (tgt : Except Err (List Comp)), fs.locate cwd r = tgt →
+        (match enterFile fs cwd r k with
+          | .ok v => implGet fs home cwd (some r) v ks
+          | .error e => .error e) =
+        (match tgt with
+          | .error e => .error e
+          | .ok n => match specEnter fs n k with
+            | .ok v => specGet fs home cwd n v ks
+            | .error e => .error e) := by
+      intro r tgt ht
+      subst ht
+      unfold enterFile
+      cases hl : fs.locate cwd r with
+      | error e => rfl
+      | ok n =>
+        simp only [specEnter]
+        cases topSet (fs.content n) with
+        | error e => rfl
+        | ok bs =>
+          simp only
+          cases getKey bs k with
+          | error e => rfl
+          | ok v =>
+            simp only
+            exact ih r n v hl
     intro src file v hloc
     cases v with
     | lit n => simp [implGet, specGet]
@@ -68,50 +102,45 @@ theorem implGet_refines (fs : FS) (cwd : List Comp) (ks : List Text) :
       | paren b => rfl
       | other => rfl
       | path t =>
-        simp only [resolvedPath, specTarget]
+        simp only
         by_cases hang : isAngle t = true
-        · simp [hang]
-        · simp only [hang, Bool.false_eq_true, if_false]
-          -- the two targets coincide
-          have htarget : ∀ r : PPath, r = parsePath t →
-              fs.locate cwd (if !r.abs then src.parent.join r else r) =
-              fs.locateFrom (if r.abs then [] else file.dropLast) r.comps := by
-            intro r _
-            cases hab : r.abs with
+        · simp [resolvedPath, specTarget, hang]
+        · have hang' : isAngle t = false := by simpa using hang
+          cases hhome : isHome t with
+          | true =>
+            -- `~/x`: both sides are the OS's reading of `$HOME/x`
+            have hr : resolvedPath t (some src) home =
+                .ok ⟨home.abs, home.comps ++ (parsePath (t.drop 2)).comps⟩ := by
+              simp only [resolvedPath, hang', hhome, Bool.false_eq_true, if_false, if_true]
+              exact expanduser_home home t hhome
+            rw [hr]
+            simp only
+            exact hop _ _ (by simp [specTarget, hang', hhome])
+          | false =>
+            -- the two targets coincide (hop lemma)
+            have hr : resolvedPath t (some src) home =
+                .ok (if !(parsePath t).abs then src.parent.join (parsePath t) else parsePath t) := by
+              simp only [resolvedPath, hang', hhome, Bool.false_eq_true, if_false]
+              split <;> rfl
+            rw [hr]
+            simp only
+            apply hop
+            rw [specTarget_rel fs home cwd file t hang' hhome]
+            cases hab : (parsePath t).abs with
             | true => simp [FS.locate, hab]
             | false =>
               simp only [Bool.not_false, if_true, PPath.join, hab, Bool.false_eq_true, if_false,
                 FS.locate, PPath.parent]
-              exact fs.hop _ src.comps file hloc r.comps
-          have hsplit : (if !(parsePath t).abs then (Except.ok (src.parent.join (parsePath t)) : Except Err PPath)
-              else .ok (parsePath t)) =
-              .ok (if !(parsePath t).abs then src.parent.join (parsePath t) else parsePath t) := by
-            split <;> rfl
-          rw [hsplit]
-          simp only
-          have ht := htarget (parsePath t) rfl
-          unfold enterFile
-          rw [ht]
-          cases hl : fs.locateFrom (if (parsePath t).abs then [] else file.dropLast) (parsePath t).comps with
-          | error e => rfl
-          | ok n =>
-            simp only [specEnter]
-            cases topSet (fs.content n) with
-            | error e => rfl
-            | ok bs =>
-              simp only
-              cases getKey bs k with
-              | error e => rfl
-              | ok v =>
-                simp only
-                exact ih _ n v (by rw [ht, hl])
+              exact fs.hop _ src.comps file hloc (parsePath t).comps
 
-/-- **Main theorem (full strength for `./`, `../`, child, sibling, parent and absolute literals and
-    for `<…>`; `~/` read the way the code reads it).** For every filesystem, working directory,
+/-- **Main theorem (full strength: `./`, `../`, child, sibling, parent and absolute literals,
+    `<…>`, and `~/` with Nix's reading).** For every filesystem, home path, working directory,
     entry spelling and key list, the code's answer is the spec's answer: each hop is resolved in
-    the directory of the file that contains the literal; errors included (same class, same hop). -/
-theorem lookup_relative_to_importing_file (fs : FS) (cwd : List Comp) (entry k : Text) (ks : List Text) :
-    implLookup fs cwd entry k ks = specFrom fs none cwd entry k ks := by
+    the directory of the file that contains the literal — a `~/x` literal at `$HOME/x` —; errors
+    included (same class, same hop). -/
+theorem lookup_relative_to_importing_file (fs : FS) (home : PPath) (cwd : List Comp) (entry k : Text)
+    (ks : List Text) :
+    implLookup fs home cwd entry k ks = specFrom fs home cwd entry k ks := by
   simp only [implLookup, specFrom, enterFile, specLookup, specEnter]
   cases hl : fs.locate cwd (parsePath entry) with
   | error e => rfl
@@ -123,82 +152,130 @@ theorem lookup_relative_to_importing_file (fs : FS) (cwd : List Comp) (entry k :
       simp only
       cases getKey bs k with
       | error e => rfl
-      | ok v => exact implGet_refines fs cwd ks _ file v hl
+      | ok v => exact implGet_refines fs home cwd ks _ file v hl
 
-/-! ## 2. Corollaries: the working directory and the spelling of the entry path do not matter. -/
+/-! ## 2. Corollaries: the working directory and the spelling of the entry path do not matter
+(the home path being absolute — with a relative `$HOME`, `~/x` names a path relative to the working
+directory, for Nix as for the code — or no `~/` literal occurring). -/
 
 /-- Two (working directory, entry spelling) pairs that the OS locates at the same file — or that
     both fail — give the same result for every key list. -/
-theorem cwd_and_spelling_independent (fs : FS) (cwd₁ cwd₂ : List Comp) (e₁ e₂ k : Text) (ks : List Text)
+theorem cwd_and_spelling_independent (fs : FS) (home : PPath) (cwd₁ cwd₂ : List Comp) (e₁ e₂ k : Text)
+    (ks : List Text) (hh : home.abs = true ∨ fs.noHome = true)
     (h : fs.locate cwd₁ (parsePath e₁) = fs.locate cwd₂ (parsePath e₂)) :
-    implLookup fs cwd₁ e₁ k ks = implLookup fs cwd₂ e₂ k ks := by
+    implLookup fs home cwd₁ e₁ k ks = implLookup fs home cwd₂ e₂ k ks := by
   rw [lookup_relative_to_importing_file, lookup_relative_to_importing_file]
-  unfold specFrom
-  rw [h]
+  exact specFrom_congr fs home home cwd₁ cwd₂ e₁ e₂ k ks (hh.imp (fun h => ⟨rfl, h⟩) id) h
 
 /-- An absolute entry path gives the same result under every working directory. -/
-theorem cwd_independent_absolute (fs : FS) (cwd₁ cwd₂ : List Comp) (e k : Text) (ks : List Text)
-    (habs : (parsePath e).abs = true) :
-    implLookup fs cwd₁ e k ks = implLookup fs cwd₂ e k ks := by
-  apply cwd_and_spelling_independent
+theorem cwd_independent_absolute (fs : FS) (home : PPath) (cwd₁ cwd₂ : List Comp) (e k : Text)
+    (ks : List Text) (hh : home.abs = true ∨ fs.noHome = true) (habs : (parsePath e).abs = true) :
+    implLookup fs home cwd₁ e k ks = implLookup fs home cwd₂ e k ks := by
+  apply cwd_and_spelling_independent _ _ _ _ _ _ _ _ hh
   simp [FS.locate, habs]
 
 /-- The result depends on the entry only through the file it names: in particular the relative
     and the absolute spelling of one file agree. -/
-theorem result_is_function_of_located_file (fs : FS) (cwd : List Comp) (e k : Text) (ks : List Text)
-    (file : List Comp) (h : fs.locate cwd (parsePath e) = .ok file) :
-    implLookup fs cwd e k ks = specLookup fs none file k ks := by
+theorem result_is_function_of_located_file (fs : FS) (home : PPath) (cwd : List Comp) (e k : Text)
+    (ks : List Text) (file : List Comp) (h : fs.locate cwd (parsePath e) = .ok file) :
+    implLookup fs home cwd e k ks = specLookup fs home cwd file k ks := by
   rw [lookup_relative_to_importing_file]
   unfold specFrom
   rw [h]
+
+/-- On a filesystem without `~/` literals the home path plays no part. -/
+theorem home_irrelevant_without_home_literals (fs : FS) (home₁ home₂ : PPath) (cwd : List Comp)
+    (e k : Text) (ks : List Text) (hno : fs.noHome = true) :
+    implLookup fs home₁ cwd e k ks = implLookup fs home₂ cwd e k ks := by
+  rw [lookup_relative_to_importing_file, lookup_relative_to_importing_file]
+  exact specFrom_congr fs home₁ home₂ cwd cwd e e k ks (.inr hno) rfl
 
 /-! ## 3. Error classes. -/
 
 /-- A non-path import argument (after parentheses are stripped) raises `TypeError` as soon as a
     key is looked up through it — no file is read. -/
-theorem nonpath_argument_type_error (fs : FS) (cwd : List Comp) (src : Option PPath) (a : Arg)
-    (k : Text) (ks : List Text) (h : ∀ t, resolveArg a ≠ .path t) :
-    implGet fs cwd src (.imp a) (k :: ks) = .error .type := by
+theorem nonpath_argument_type_error (fs : FS) (home : PPath) (cwd : List Comp) (src : Option PPath)
+    (a : Arg) (k : Text) (ks : List Text) (h : ∀ t, resolveArg a ≠ .path t) :
+    implGet fs home cwd src (.imp a) (k :: ks) = .error .type := by
   cases hra : resolveArg a with
   | path t => exact absurd hra (h t)
   | paren b => simp [implGet, hra]
   | other => simp [implGet, hra]
 
 /-- An angle-bracket path raises `ValueError` — no file is read. -/
-theorem angle_path_value_error (fs : FS) (cwd : List Comp) (src : Option PPath) (a : Arg) (t : Text)
-    (k : Text) (ks : List Text) (h : resolveArg a = .path t) (hang : isAngle t = true) :
-    implGet fs cwd src (.imp a) (k :: ks) = .error .value := by
+theorem angle_path_value_error (fs : FS) (home : PPath) (cwd : List Comp) (src : Option PPath)
+    (a : Arg) (t : Text) (k : Text) (ks : List Text) (h : resolveArg a = .path t)
+    (hang : isAngle t = true) :
+    implGet fs home cwd src (.imp a) (k :: ks) = .error .value := by
   simp [implGet, h, resolvedPath, hang]
 
-/-- A literal whose target (relative to the importing file) is not a readable regular file raises
-    an `OSError`; in particular the lookup does not fall back to some other file. -/
-theorem missing_file_os_error (fs : FS) (cwd : List Comp) (src : PPath) (file : List Comp)
-    (a : Arg) (t : Text) (k : Text) (ks : List Text) (e : Err)
+/-- A literal whose target (relative to the importing file; `$HOME/x` for `~/x`) is not a readable
+    regular file raises an `OSError`; in particular the lookup does not fall back to some other
+    file. -/
+theorem missing_file_os_error (fs : FS) (home : PPath) (cwd : List Comp) (src : PPath)
+    (file : List Comp) (a : Arg) (t : Text) (k : Text) (ks : List Text) (e : Err)
     (hloc : fs.locate cwd src = .ok file) (h : resolveArg a = .path t) (hang : isAngle t = false)
-    (hmiss : specTarget fs none file t = .error e) :
-    implGet fs cwd (some src) (.imp a) (k :: ks) = .error .os := by
-  rw [implGet_refines fs cwd (k :: ks) src file _ hloc]
+    (hmiss : specTarget fs home cwd file t = .error e) :
+    implGet fs home cwd (some src) (.imp a) (k :: ks) = .error .os := by
+  rw [implGet_refines fs home cwd (k :: ks) src file _ hloc]
   simp only [specGet, h, hmiss]
   congr 1
-  rw [specTarget_none fs file t hang] at hmiss
-  exact fs.locateFrom_error _ _ _ hmiss
+  exact specTarget_error fs home cwd file t e hang hmiss
 
 /-- "Never another file": when a hop succeeds, the value comes out of exactly the file the spec
     names, and that file is the lexical normal form of `<directory of the importing file>/<literal>`
     (what Nix itself computes for the literal). -/
-theorem hop_reads_the_lexical_target (fs : FS) (file : List Comp) (t : Text) (n : List Comp)
-    (hang : isAngle t = false) (h : specTarget fs none file t = .ok n) :
+theorem hop_reads_the_lexical_target (fs : FS) (home : PPath) (cwd file : List Comp) (t : Text)
+    (n : List Comp) (hang : isAngle t = false) (hh : isHome t = false)
+    (h : specTarget fs home cwd file t = .ok n) :
     n = lexNorm (if (parsePath t).abs then [] else file.dropLast) (parsePath t).comps ∧
     fs.isFile n = true := by
-  rw [specTarget_none fs file t hang] at h
+  rw [specTarget_rel fs home cwd file t hang hh] at h
   exact ⟨fs.locateFrom_lex _ _ _ h, (fs.locateFrom_ok _ _ _ h).2.1⟩
 
-/-! ## 4. FULL statement with Nix's reading of `~/x` — false of the code. -/
+/-- The same for a `~/x` literal: the file read is the lexical normal form of `$HOME/x`; the
+    importing file does not occur. -/
+theorem home_hop_reads_the_lexical_target (fs : FS) (home : PPath) (cwd file : List Comp) (t : Text)
+    (n : List Comp) (hang : isAngle t = false) (hh : isHome t = true)
+    (h : specTarget fs home cwd file t = .ok n) :
+    n = lexNorm (if home.abs then [] else cwd) (home.comps ++ (parsePath (t.drop 2)).comps) ∧
+    fs.isFile n = true := by
+  rw [specTarget_home fs home cwd file t hang hh] at h
+  exact ⟨fs.locateFrom_lex _ _ _ h, (fs.locateFrom_ok _ _ _ h).2.1⟩
 
-/-- The full statement: as the main theorem, and `~/x` means `<home>/x`. -/
+/-! ## 4. `~/x` means `<home>/x` (formerly false of the code: finding C17-home-literal, repaired). -/
+
+/-- The path the code computes for a `~/` literal does not depend on the importing file. -/
+theorem home_literal_independent_of_importing_file (t : Text) (src₁ src₂ : Option PPath) (home : PPath)
+    (hh : isHome t = true) : resolvedPath t src₁ home = resolvedPath t src₂ home := by
+  unfold resolvedPath
+  simp [hh]
+
+/-- … and it is the home path followed by the components after `~/`. -/
+theorem home_literal_resolved (t : Text) (src : Option PPath) (home : PPath)
+    (hang : isAngle t = false) (hh : isHome t = true) :
+    resolvedPath t src home = .ok ⟨home.abs, home.comps ++ (parsePath (t.drop 2)).comps⟩ := by
+  simp only [resolvedPath, hang, hh, Bool.false_eq_true, if_false, if_true]
+  exact expanduser_home home t hh
+
+/-- The SPEC's `$HOME/x`, for a home directory `h` that exists and is given canonically (what the
+    harness sets `HOME` to), is `x` resolved from the directory `h` — as a literal `./x` written in
+    a file of `h` would be. -/
+theorem home_literal_in_home_directory (fs : FS) (h cwd file : List Comp) (t : Text)
+    (hang : isAngle t = false) (hh : isHome t = true) (hd : fs.isDir h = true)
+    (hc : canonical h = true) :
+    specTarget fs ⟨true, h⟩ cwd file t = fs.locateFrom h (parsePath (t.drop 2)).comps := by
+  rw [specTarget_home fs _ cwd file t hang hh]
+  exact fs.home_hop h _ hd hc
+
+/-- The full statement: as the main theorem, `~/x` meaning `<home>/x` for every home directory. -/
 def Full : Prop :=
   ∀ (fs : FS) (home cwd : List Comp) (entry k : Text) (ks : List Text),
-    implLookup fs cwd entry k ks = specFrom fs (some home) cwd entry k ks
+    implLookup fs ⟨true, home⟩ cwd entry k ks = specFrom fs ⟨true, home⟩ cwd entry k ks
+
+/-- It holds (before the repair its negation was proved: `cex_home`). -/
+theorem full_holds : Full :=
+  fun fs home cwd entry k ks => lookup_relative_to_importing_file fs ⟨true, home⟩ cwd entry k ks
 
 def cexFS : FS where
   files := [
@@ -207,78 +284,19 @@ def cexFS : FS where
     (["home".toList, "h.nix".toList], .attrs [("v".toList, .lit 2)])]
   dirs := []
 
-/-- Counterexample (open known finding C17-home-literal): `import ~/h.nix` in `/w/a.nix` reads
-    `/w/~/h.nix` (a directory literally named `~` next to the importing file), not `/home/h.nix`.
-    Replayed on the implementation by the check. -/
-theorem cex_home : ¬ Full := by
-  intro h
-  have := h cexFS ["home".toList] ["w".toList] "a.nix".toList "h".toList ["v".toList]
-  revert this
+/-- The witness of the former counterexample (finding C17-home-literal): `import ~/h.nix` in
+    `/w/a.nix` reads `/home/h.nix` (value 2), not `/w/~/h.nix` (value 1, a directory literally
+    named `~` next to the importing file) — from the file's directory, from the root with a
+    relative spelling, and from the home directory with an absolute one. Replayed on the
+    implementation by the check (`fixed_cases`). -/
+theorem home_literal_reads_home :
+    implLookup cexFS ⟨true, ["home".toList]⟩ ["w".toList] "a.nix".toList "h".toList ["v".toList]
+      = .ok (.lit 2) ∧
+    implLookup cexFS ⟨true, ["home".toList]⟩ [] "w/a.nix".toList "h".toList ["v".toList]
+      = .ok (.lit 2) ∧
+    implLookup cexFS ⟨true, ["home".toList]⟩ ["home".toList] "/w/a.nix".toList "h".toList ["v".toList]
+      = .ok (.lit 2) := by
   decide
-
-/-- What does hold with Nix's reading of `~/`: the full statement on every filesystem that
-    contains no `~/` literal. -/
-theorem lookup_partial (fs : FS) (home cwd : List Comp) (entry k : Text) (ks : List Text)
-    (hno : fs.noHome = true) :
-    implLookup fs cwd entry k ks = specFrom fs (some home) cwd entry k ks := by
-  rw [lookup_relative_to_importing_file]
-  have key : ∀ (ks : List Text) (file : List Comp) (v : Val), v.noHome = true →
-      specGet fs none file v ks = specGet fs (some home) file v ks := by
-    intro ks
-    induction ks with
-    | nil => intro file v _; cases v <;> simp [specGet]
-    | cons k ks ih =>
-      intro file v hv
-      cases v with
-      | lit n => simp [specGet]
-      | set bs =>
-        simp only [specGet, getKey]
-        cases hl : bs.lookup k with
-        | none => rfl
-        | some v =>
-          simp only
-          exact ih file v (noHomeL_lookup bs k v (by simpa [Val.noHome] using hv) hl)
-      | imp a =>
-        simp only [specGet]
-        cases hra : resolveArg a with
-        | paren b => rfl
-        | other => rfl
-        | path t =>
-          have hh : isHome t = false := resolveArg_noHome a t (by simpa [Val.noHome] using hv) hra
-          have hst : specTarget fs none file t = specTarget fs (some home) file t := by
-            simp [specTarget, hh]
-          simp only [hst]
-          cases specTarget fs (some home) file t with
-          | error e => rfl
-          | ok n =>
-            simp only [specEnter]
-            have hc := fs.content_noHome hno n
-            cases hcn : fs.content n with
-            | notSet => rfl
-            | attrs bs =>
-              rw [hcn] at hc
-              simp only [topSet, getKey]
-              cases hl : bs.lookup k with
-              | none => rfl
-              | some v =>
-                simp only
-                exact ih n v (noHomeL_lookup bs k v (by simpa [Content.noHome] using hc) hl)
-  unfold specFrom specLookup specEnter
-  cases fs.locate cwd (parsePath entry) with
-  | error e => rfl
-  | ok file =>
-    simp only
-    have hc := fs.content_noHome hno file
-    cases hcn : fs.content file with
-    | notSet => rfl
-    | attrs bs =>
-      rw [hcn] at hc
-      simp only [topSet, getKey]
-      cases hl : bs.lookup k with
-      | none => rfl
-      | some v =>
-        simp only
-        exact key ks file v (noHomeL_lookup bs k v (by simpa [Content.noHome] using hc) hl)
 
 /-! ## Non-vacuity: a layout with three directories, a chain through child, parent and absolute
 literals, looked up from two working directories with three spellings of the entry. -/
@@ -301,17 +319,27 @@ def demoFS : FS where
   dirs := [["r".toList, "empty".toList]]
 
 example : demoFS.noHome = true := by decide
-example : implLookup demoFS ["r".toList] "a.nix".toList "i".toList ["d".toList, "back".toList, "i".toList, "w".toList]
+def demoHome : PPath := ⟨true, ["r".toList, "empty".toList]⟩
+example : implLookup demoFS demoHome ["r".toList] "a.nix".toList "i".toList ["d".toList, "back".toList, "i".toList, "w".toList]
     = .ok (.lit 3) := by decide
-example : implLookup demoFS ["r".toList, "sub".toList, "deep".toList] "../../a.nix".toList "i".toList
+example : implLookup demoFS demoHome ["r".toList, "sub".toList, "deep".toList] "../../a.nix".toList "i".toList
     ["d".toList, "back".toList, "i".toList, "w".toList] = .ok (.lit 3) := by decide
-example : implLookup demoFS ["r".toList, "empty".toList] "/r/sub/deep/../../a.nix".toList "i".toList
+example : implLookup demoFS demoHome ["r".toList, "empty".toList] "/r/sub/deep/../../a.nix".toList "i".toList
     ["up".toList, "v".toList] = .ok (.lit 1) := by decide
 example : demoFS.locate ["r".toList, "sub".toList] (parsePath "../a.nix".toList) =
     demoFS.locate ["r".toList, "empty".toList] (parsePath "/r/a.nix".toList) := by decide
-example : implLookup demoFS ["r".toList] "a.nix".toList "n".toList ["x".toList] = .error .value := by decide
-example : implLookup demoFS ["r".toList] "a.nix".toList "s".toList ["x".toList] = .error .type := by decide
-example : implLookup demoFS ["r".toList] "a.nix".toList "m".toList ["w".toList] = .error .os := by decide
-example : implLookup demoFS ["r".toList] "sub/../sub".toList "w".toList [] = .error .os := by decide
+example : implLookup demoFS demoHome ["r".toList] "a.nix".toList "n".toList ["x".toList] = .error .value := by decide
+example : implLookup demoFS demoHome ["r".toList] "a.nix".toList "s".toList ["x".toList] = .error .type := by decide
+example : implLookup demoFS demoHome ["r".toList] "a.nix".toList "m".toList ["w".toList] = .error .os := by decide
+example : implLookup demoFS demoHome ["r".toList] "sub/../sub".toList "w".toList [] = .error .os := by decide
+-- the hypotheses of `home_literal_in_home_directory` are satisfiable, and a missing `~/` target is an OSError
+example : cexFS.isDir ["home".toList] = true ∧ canonical ["home".toList] = true ∧
+    isHome "~/h.nix".toList = true ∧ isAngle "~/h.nix".toList = false := by decide
+example : cexFS.noHome = false := by decide
+example : implLookup cexFS ⟨true, ["nowhere".toList]⟩ ["w".toList] "a.nix".toList "h".toList ["v".toList]
+    = .error .os := by decide
+-- a home path that is not canonical is still `$HOME/x` as the OS reads it
+example : implLookup cexFS ⟨true, ["w".toList, "..".toList, "home".toList]⟩ ["w".toList] "a.nix".toList
+    "h".toList ["v".toList] = .ok (.lit 2) := by decide
 
 end Nima.C17
